@@ -24,20 +24,23 @@ def jobs():
 
 class GroupByProtocol:
     """C16: any interleaving of advancing the groupby and advancing the current / a stale group handle.
-    One stale handle represents all of them (a stale handle's behaviour only depends on not being current)."""
+    One stale handle is retained; which one is arbitrary: at every advance of the groupby the consumer either
+    retains the handle that just became stale or keeps the older one it already holds (`next(G) keeping the older
+    stale handle`), so the retained handle ranges over every earlier group."""
     def available(self, H):
         ops = ["next(G)"]
         if "cur" in H:
             ops.append("next(cur)")
         if "stale" in H:
             ops.append("next(stale)")
+            ops.append("next(G) keeping the older stale handle")
         return ops
 
     def perform(self, ip, H, op):
-        if op == "next(G)":
+        if op.startswith("next(G)"):
             r = yield from ip.pull(H["self"])
             key, grp = r
-            if "cur" in H:
+            if "cur" in H and op == "next(G)":
                 H["stale"] = H["cur"]
             H["cur"] = grp
             return ("group", key)
